@@ -263,6 +263,71 @@ fn gen_set(rng: &mut Rng, k: usize) -> Vec<(String, String)> {
     ]
 }
 
+
+/// the depths the property names: extends / include chains of 32, component recursion at the
+/// limit (20) and beyond, statement nesting near the parser's limit
+fn deep_sets() -> Vec<(String, Vec<(String, String)>)> {
+    let mut out = Vec::new();
+    // extends chain of 32 with super() at every level, a loop and a capture around it
+    let mut chain: Vec<(String, String)> = vec![(
+        "t0".into(),
+        "B[{% block b %}b0{{ c }}{% endblock %}|{% filter upper %}{% block f %}f0{% endblock %}{% endfilter %}]".into(),
+    )];
+    for i in 1..=32 {
+        chain.push((
+            format!("t{i}"),
+            format!(
+                "{{% extends \"t{}\" %}}{{% block b %}}{{{{ super() }}}}{i}{{% for x in a %}}{{% if x %}}{{% break %}}{{% endif %}}{{% endfor %}}{{% endblock %}}{}",
+                i - 1,
+                if i % 2 == 0 { "{% block f %}{% set s %}{{ super() }}{% endset %}{{ s }}e{% endblock %}" } else { "" }
+            ),
+        ));
+    }
+    out.push(("deep:extends32".into(), chain));
+    // include chain of 32, each level inside a loop / a capture / a component body
+    let mut inc: Vec<(String, String)> = vec![("lib".into(), "{% component box(t = 1) %}({{ t }}{{ body }}){% endcomponent box %}".into())];
+    for i in 0..32 {
+        let inner = format!("{{% include \"i{}\" %}}", i + 1);
+        let body = match i % 4 {
+            0 => format!("{i}{inner}"),
+            1 => format!("{{% for x in [1] %}}{inner}{{% endfor %}}"),
+            2 => format!("{{% set s %}}{inner}{{% endset %}}{{{{ s }}}}"),
+            _ => format!("{{% <box t={{ a }}> %}}{inner}{{% </box> %}}"),
+        };
+        inc.push((format!("i{i}"), body));
+    }
+    inc.push(("i32".into(), "end{{ b }}".into()));
+    out.push(("deep:include32".into(), inc));
+    // component recursion: below, at and beyond MAX_COMPONENT_RECURSION_DEPTH
+    out.push((
+        "deep:component-recursion".into(),
+        vec![
+            ("lib".into(), "{% component rec(n) %}{{ n }}{% if n > 0 %}{{ <rec n={ n - 1 }/> }}{% endif %}{% endcomponent rec %}{% component wrap(n) %}{% <wrap2 n={ n }> %}{{ <rec n={ n }/> }}{% </wrap2> %}{% endcomponent wrap %}{% component wrap2(n) %}[{{ body }}]{% endcomponent wrap2 %}".into()),
+            ("r5".into(), "{{ <rec n={5}/> }}".into()),
+            ("r18".into(), "{{ <rec n={18}/> }}{{ <wrap n={3}/> }}".into()),
+            ("r19".into(), "{{ <rec n={19}/> }}".into()),
+            ("r20".into(), "{{ <rec n={20}/> }}".into()),
+            ("r1000".into(), "{{ <rec n={1000}/> }}".into()),
+            ("rctx".into(), "{{ <rec n={ a }/> }}{{ <wrap n={ b }/> }}".into()),
+        ],
+    ));
+    // statement nesting close to the parser's limit
+    for depth in [8usize, 16, 30] {
+        let mut open = String::new();
+        let mut close = String::new();
+        for d in 0..depth {
+            match d % 4 {
+                0 => { open.push_str("{% for i in a %}"); close.insert_str(0, "{% else %}e{% endfor %}"); }
+                1 => { open.push_str("{% if i %}"); close.insert_str(0, "{% else %}{% continue %}{% endif %}"); }
+                2 => { open.push_str("{% for k, v in c %}"); close.insert_str(0, "{% if k %}{% break %}{% endif %}{% endfor %}"); }
+                _ => { open.push_str("{% if not v %}{% break %}{% elif v %}"); close.insert_str(0, "{% endif %}"); }
+            }
+        }
+        out.push((format!("deep:nesting{depth}"), vec![("n".into(), format!("{open}{{{{ b }}}}{close}"))]));
+    }
+    out
+}
+
 // ------------------------------------------------------------------ model-side printing
 
 fn nontrivial_chunk(l: &Listing) -> bool {
@@ -459,6 +524,7 @@ fn main() {
     }
     let n_sets = if thorough { 800 } else { 90 };
     let mut sets: Vec<(String, Vec<(String, String)>)> = corpus::corpus_sets();
+    sets.extend(deep_sets());
     for k in 0..n_sets {
         sets.push((format!("set#{k}"), gen_set(&mut rng, k)));
     }
@@ -490,6 +556,9 @@ fn main() {
         tera.autoescape_on(vec!["base", ".html"]);
         if let Err(e) = tera.add_raw_templates(set.clone()) {
             rejected_sets += 1;
+            if label.starts_with("deep:") {
+                o.meta.oracle_fail("a deep-nesting set of the harness was rejected at registration", None, json!({"set": label, "error": format!("{e}")}));
+            }
             if label.starts_with("set#") && rejected_examples.len() < 5 {
                 rejected_examples.push(json!({"set": label, "error": format!("{e}")}));
             }
@@ -510,7 +579,7 @@ fn main() {
         let comps: Vec<String> = component_listings(&tera).iter().map(|(n, _, _)| n.clone()).collect();
         // contexts: a / b / c bound to values of every kind (rotating so that every kind meets
         // every variable), plus the structured ones the generator's paths expect
-        let n_ctx = if label.starts_with("set#") { if thorough { 10 } else { 4 } } else { 3 };
+        let n_ctx = if label.starts_with("set#") { if thorough { 10 } else { 4 } } else if label.starts_with("deep:") { 12 } else { 3 };
         for j in 0..n_ctx {
             let off = rng.below(kind_vals.len());
             let pick = |i: usize| &kind_vals[(off + i * 7 + j) % kind_vals.len()];
